@@ -216,6 +216,6 @@ def run(a, prop, sections, oracle, what, compare_results=("TX", "EB", "INIT", "B
         "samples": samples, "traces_validated_against_impl": len(hists) if model_path else 0,
         "ops_compared": nops, "histories_with_model_mismatch": mism, "histories_flagged_by_oracle": flagged,
         "sections_compared": sorted(sections),
-        "op_distribution": {k: v_ for k, v_ in stats.items() if k.startswith("op/")},
+        "op_distribution": {k: v_ for k, v_ in stats.items() if k.startswith("op/") or k.startswith("tx/")},
     })
     return v.finish(ev)
